@@ -104,11 +104,7 @@ let hostile_row r =
       { c_name = bytes_of_string (Printf.sprintf "k%d" (rint r 4)); c_typid = zi (pick r [| 0; 16; 19; 20; 21; 23; 25; 26; 700; 1043; 2950; 77777 |]);
         c_len = zi (pick r [| -3; -2; -1; 0; 1; 2; 3; 4; 8; 16; 64; 100; 32767 |]);
         c_num = zi (pick r [| 0; 0; i + 1; -1; 1; 2; 9; 17; 1000 |]); c_align = zi (pick r [| 0; ch 'c'; ch 's'; ch 'i'; ch 'd'; ch 'x'; 255 |]) }) in
-  (* restrict typids so that the (other property's) fixed-width decoders are not handed too-short slices *)
-  let cols = List.map (fun (c : column) -> let l = iz c.c_len in
-                        if l > 0 then { c with c_typid = zi (if l >= 64 then 19 else 77777) }
-                        else if l = -1 then { c with c_typid = zi (pick r [| 0; 25; 1043; 17; 77777 |]) }   (* TODO widen once D30 is repaired *)
-                        else c) cols in
+  (* any type id with any declared length: fixed-width decoders are handed too-short slices (repaired D30) *)
   let data = rbytes r (pick r [| 0; 1; 3; 4; 7; 8; 20; 64 |]) in
   let bm = match rint r 3 with 0 -> None | 1 -> Some [] | _ -> Some (rbytes r (rrange r 1 2)) in
   let tl = if rbool r then rbytes r 5 else [] in
